@@ -161,18 +161,19 @@ class ShorterResultsPlugin(Plugin):
 
             # The module we import from is always the same as the method we
             # modified when changing the return type.
-            if stmt.module not in self.extended_imports:
+            import_from = "." * stmt.level + (stmt.module or "")
+            if import_from not in self.extended_imports:
                 continue
 
             # Add all additional imports discovered when generating the client
             # method.
-            for additional_import in self.extended_imports[stmt.module]:
+            for additional_import in self.extended_imports[import_from]:
                 stmt.names.append(ast.alias(name=additional_import))
 
             # We delete the key if it already had an import from statement so we
             # can create new imports for types not yet imported such as custom
             # scalars.
-            self.extended_imports.pop(stmt.module, None)
+            self.extended_imports.pop(import_from, None)
 
         for import_from, alias in self.extended_imports.items():
             # We insert the import at the top, it will be sorted properly in a
@@ -305,7 +306,7 @@ class ShorterResultsPlugin(Plugin):
             if single_field_class in self.imported_types:
                 import_from = self.imported_types[single_field_class]
             elif single_field_class in self.class_dict:
-                import_from = method_def.name
+                import_from = "." + method_def.name
             else:
                 continue
 
